@@ -330,10 +330,105 @@ impl TickArrayType for DynamicTickArrayLoader {
                         assert(curr_offset as int * tick_spacing as int <= 88 * 65535) by(nonlinear_arith) requires 0 <= curr_offset < 88, 0 < tick_spacing as int <= 65535;
                         assert(curr_offset as int * tick_spacing as int >= 0) by(nonlinear_arith) requires 0 <= curr_offset < 88, 0 < tick_spacing as int <= 65535; }
 //@ end
-//@ assume the dynamic array's get_tick / update_tick (Borsh (de)serialisation of 1- or 113-byte slots, rotate_left/right of the tail) are assumed to meet the trait contract in the Verus crates; they are exercised bit-precisely by the bounded Kani harnesses dyn_vs_fixed_*
+//@ assume the dynamic array's trait-level get_tick / update_tick are assumed to meet the slot-level trait contract; their real bodies are verified at BYTE level below (get_tick_bytes / update_tick_bytes against P2A) with the Borsh (de)serialisation of one slot and the std slice rotation as shims; the step from P2A to the slot-level contract is the layout argument proved for the Pinocchio twin (fragment pino_tick_arrays, lemma_dyn_update_slots)
 //@ fn state/dynamic_tick_array.rs get_tick in=/^impl TickArrayType for DynamicTickArrayLoader \{/ -> r stub
 //@ end
 //@ fn state/dynamic_tick_array.rs update_tick in=/^impl TickArrayType for DynamicTickArrayLoader \{/ -> r stub
+//@ end
+}
+
+// ------------------------------------------------------------------ Anchor dynamic tick array at byte level (C13)
+//@ tags C13 C12
+//@ assume Anchor dynamic-array shims: `DynamicTick::deserialize(&mut &tick_data()[o..o+113])?.into()` -> dyn_deserialize_at (Borsh enum: tag byte 0 = Uninitialized -> the all-zero tick, tag 1 = Initialized -> the 112 data bytes as a tick, any other tag -> error); `DynamicTick::from(update).serialize(&mut &mut tick_data_mut()[o..o+len])?` -> dyn_serialize_at (writes tag 0, or tag 1 and the 112 data bytes); `let s = &mut tick_data_mut()[o..]; s.rotate_right(n)` / rotate_left -> rotate_right_from / rotate_left_from (documented std semantics); `self.0[a..a+16].copy_from_slice(&x.to_le_bytes())` -> write16; tick_data()/tick_data_mut() are `self.0[TICK_DATA_OFFSET..]`, so the shims take TICK_DATA_OFFSET + offset
+pub const DYN_TICK_DATA_LEN: usize = 112;
+pub struct DynamicTickData {}
+impl DynamicTickData { pub const LEN: usize = 112; }
+pub uninterp spec fn dyn_tick_view(a: [u8; DYN_MAX_LEN], p: int) -> Tick;
+#[verifier::external_body]
+pub proof fn axiom_dyn_tick_view(a: [u8; DYN_MAX_LEN], p: int, b: [u8; DYN_MAX_LEN], q: int)
+    requires 0 <= p, p + 113 <= DYN_MAX_LEN, 0 <= q, q + 113 <= DYN_MAX_LEN, forall|j: int| 0 <= j < 113 ==> #[trigger] a[p + j] == b[q + j],
+    ensures dyn_tick_view(a, p) == dyn_tick_view(b, q), dyn_tick_view(a, p).initialized,
+{}
+#[verifier::external_body]
+pub fn dyn_deserialize_at(a: &[u8; DYN_MAX_LEN], p: usize) -> (r: Result<Tick>)
+    requires p + 113 <= DYN_MAX_LEN,
+    ensures a[p as int] == 0 ==> r == Ok::<Tick, Error>(zero_tick()), a[p as int] == 1 ==> r == Ok::<Tick, Error>(dyn_tick_view(*a, p as int)) && dyn_tick_view(*a, p as int).initialized, a[p as int] > 1 ==> r is Err,
+{ unimplemented!() }
+#[verifier::external_body]
+pub fn dyn_serialize_at(a: &mut [u8; DYN_MAX_LEN], p: usize, len: usize, update: &TickUpdate) -> (r: Result<()>)
+    requires p + len <= DYN_MAX_LEN, len == (if update.initialized { 113usize } else { 1usize }),
+    ensures r is Ok, forall|q: int| 0 <= q < DYN_MAX_LEN && (q < p || q >= p + len) ==> final(a)[q] == old(a)[q],
+        final(a)[p as int] == (if update.initialized { 1u8 } else { 0u8 }), update.initialized ==> dyn_tick_view(*final(a), p as int).as_update() == *update,
+{ unimplemented!() }
+#[verifier::external_body]
+pub fn rotate_right_from(a: &mut [u8; DYN_MAX_LEN], o: usize, n: usize)
+    requires o + n <= DYN_MAX_LEN,
+    ensures forall|q: int| 0 <= q < o ==> final(a)[q] == old(a)[q],
+        forall|q: int| o <= q < o + n ==> final(a)[q] == old(a)[DYN_MAX_LEN - n + (q - o)],
+        forall|q: int| o + n <= q < DYN_MAX_LEN ==> final(a)[q] == old(a)[q - n],
+{ unimplemented!() }
+#[verifier::external_body]
+pub fn rotate_left_from(a: &mut [u8; DYN_MAX_LEN], o: usize, n: usize)
+    requires o + n <= DYN_MAX_LEN,
+    ensures forall|q: int| 0 <= q < o ==> final(a)[q] == old(a)[q],
+        forall|q: int| o <= q < DYN_MAX_LEN - n ==> final(a)[q] == old(a)[q + n],
+        forall|q: int| DYN_MAX_LEN - n <= q < DYN_MAX_LEN ==> final(a)[q] == old(a)[o + (q - (DYN_MAX_LEN - n))],
+{ unimplemented!() }
+#[verifier::external_body]
+pub fn write16(a: &mut [u8; DYN_MAX_LEN], off: usize, b: [u8; 16])
+    requires off + 16 <= DYN_MAX_LEN,
+    ensures sub16(*final(a), off as int) == b, forall|q: int| 0 <= q < DYN_MAX_LEN && (q < off || q >= off + 16) ==> final(a)[q] == old(a)[q],
+{ unimplemented!() }
+/// byte position of slot k inside the loader's bytes
+pub open spec fn offa(b: u128, k: int) -> int { let below = popcount(b & (((1u128 << (k as u128)) - 1) as u128)); 52 + 113 * below + (k - below) }
+/// P2A - the byte-level effect of the Anchor update_tick on slot k at position o = offa(bitmap, k): the bitmap changes (bit k) only when the slot's state changes;
+/// bytes below o other than the bitmap field are untouched; the slot becomes [1, tick bytes] or [0]; the bytes behind keep their order and move by +112, -112 or 0
+pub open spec fn dyna_update_bytes(a0: [u8; DYN_MAX_LEN], k: int, u: TickUpdate, a1: [u8; DYN_MAX_LEN]) -> bool {
+    let b0 = le_u128(sub16(a0, 36)); let b1 = le_u128(sub16(a1, 36)); let o = offa(b0, k); let was = a0[o] != 0;
+    let oldlen = if was { 113int } else { 1int }; let newlen = if u.initialized { 113int } else { 1int };
+    &&& b1 == (if !was && u.initialized { b0 | (1u128 << (k as u128)) } else if was && !u.initialized { b0 & !(1u128 << (k as u128)) } else { b0 })
+    &&& (forall|q: int| 0 <= q < o && !(36 <= q < 52) ==> a1[q] == a0[q])
+    &&& (if u.initialized { a1[o] == 1 && dyn_tick_view(a1, o).as_update() == u } else { a1[o] == 0 })
+    &&& (forall|q: int| o + newlen <= q < (if was && !u.initialized { DYN_MAX_LEN - 112 } else { DYN_MAX_LEN as int }) ==> #[trigger] a1[q] == a0[q - newlen + oldlen])
+}
+impl DynamicTickArrayLoader {
+//@ subst /self\.0\[Self::TICK_BITMAP_OFFSET\.\.Self::TICK_BITMAP_OFFSET \+ 16\]\s*\.copy_from_slice\(&tick_bitmap\.to_le_bytes_v\(\)\);/ => /write16(&mut self.0, Self::TICK_BITMAP_OFFSET, tick_bitmap.to_le_bytes_v());/
+//@ fn state/dynamic_tick_array.rs update_tick_bitmap in=/^impl DynamicTickArrayLoader \{\n    fn byte_offset/
+    requires 0 <= tick_offset < 88,
+    ensures final(self).vbitmap() == (if initialized { old(self).vbitmap() | (1u128 << (tick_offset as u128)) } else { old(self).vbitmap() & !(1u128 << (tick_offset as u128)) }),
+        forall|q: int| 0 <= q < DYN_MAX_LEN && !(36 <= q < 52) ==> final(self).0[q] == old(self).0[q],
+//@ inject at /^\s*\{/
+        proof { broadcast use crate::lebytes::le_roundtrip; let k = tick_offset as u128; assert((1u128 << tick_offset) == (1u128 << k)); assert(Self::TICK_BITMAP_OFFSET == 36); }
+//@ end
+/// reading slot k: the all-zero tick for tag 0, the 112 data bytes for tag 1 (C13: same answer as a fixed array holding the same ticks)
+//@ fn state/dynamic_tick_array.rs get_tick in=/^impl TickArrayType for DynamicTickArrayLoader \{/ -> r pub as=get_tick_bytes
+    requires self.wf(), tick_spacing > 0, -IDX_BOUND() <= tick_index <= IDX_BOUND(),
+    ensures ({
+        let ok = in_range_spec(tick_index as int, self.vstart(), tick_spacing as int, false) && tick_usable(tick_index as int, tick_spacing as int);
+        let o = offa(self.vbitmap(), slot_of(tick_index as int, self.vstart(), tick_spacing as int));
+        &&& (!ok ==> r == err::<Tick>(ErrorCode::TickNotFound))
+        &&& (ok && self.0[o] == 0 ==> r == Ok::<Tick, Error>(zero_tick()))
+        &&& (ok && self.0[o] == 1 ==> r == Ok::<Tick, Error>(dyn_tick_view(self.0, o)))
+    }),
+//@ rewrite /let ticks_data = self\.tick_data\(\);\s*let mut tick_data = &ticks_data\[byte_offset\.\.byte_offset \+ DynamicTick::INITIALIZED_LEN\];\s*let tick = DynamicTick::deserialize\(&mut tick_data\)\?;\s*Ok\(tick\.into\(\)\)/ => /let tick = dyn_deserialize_at(&self.0, Self::TICK_DATA_OFFSET + byte_offset)?; Ok(tick)/
+//@ inject before /let byte_offset = /
+        proof { lemma_slot_range(tick_index as int, self.vstart(), tick_spacing as int, false); assert(Self::TICK_DATA_OFFSET == 52); }
+//@ end
+//@ fn state/dynamic_tick_array.rs update_tick in=/^impl TickArrayType for DynamicTickArrayLoader \{/ -> r pub as=update_tick_bytes
+    requires old(self).wf(), tick_spacing > 0, -IDX_BOUND() <= tick_index <= IDX_BOUND(),
+    ensures final(self).vstart() == old(self).vstart(), ({
+        let ok = in_range_spec(tick_index as int, old(self).vstart(), tick_spacing as int, false) && tick_usable(tick_index as int, tick_spacing as int);
+        let k = slot_of(tick_index as int, old(self).vstart(), tick_spacing as int); let o = offa(old(self).vbitmap(), k);
+        &&& (!ok ==> r == err::<()>(ErrorCode::TickNotFound) && final(self).0 == old(self).0)
+        &&& (ok && old(self).0[o] <= 1 ==> r is Ok && dyna_update_bytes(old(self).0, k, *update, final(self).0))
+        &&& (ok && old(self).0[o] > 1 ==> r is Err && final(self).0 == old(self).0)
+    }),
+//@ rewrite /let data = self\.tick_data\(\);\s*let mut tick_data = &data\[byte_offset\.\.byte_offset \+ DynamicTick::INITIALIZED_LEN\];\s*let tick: Tick = DynamicTick::deserialize\(&mut tick_data\)\?\.into\(\);/ => /let tick: Tick = dyn_deserialize_at(&self.0, Self::TICK_DATA_OFFSET + byte_offset)?;/
+//@ rewrite /let data_mut = self\.tick_data_mut\(\);\s*let shift_data = &mut data_mut\[byte_offset\.\.\];\s*shift_data\.rotate_right\(([^;]*)\);/ => /rotate_right_from(&mut self.0, Self::TICK_DATA_OFFSET + byte_offset, \1);/
+//@ rewrite /let data_mut = self\.tick_data_mut\(\);\s*let shift_data = &mut data_mut\[byte_offset\.\.\];\s*shift_data\.rotate_left\(([^;]*)\);/ => /rotate_left_from(&mut self.0, Self::TICK_DATA_OFFSET + byte_offset, \1);/
+//@ rewrite /let data_mut = self\.tick_data_mut\(\);\s*let mut tick_data = &mut data_mut\[byte_offset\.\.byte_offset \+ tick_data_len\];\s*DynamicTick::from\(update\)\.serialize\(&mut tick_data\)\?;/ => /dyn_serialize_at(&mut self.0, Self::TICK_DATA_OFFSET + byte_offset, tick_data_len, update)?;/
+//@ inject before /let byte_offset = /
+        proof { lemma_slot_range(tick_index as int, self.vstart(), tick_spacing as int, false); assert(Self::TICK_DATA_OFFSET == 52); }
 //@ end
 }
 }
